@@ -8,7 +8,7 @@
    is written independently, byte by byte, with plain arithmetic. *)
 From Coq Require Import ZArith String List Bool.
 Require Import Rig.Generated.GenPackets Rig.Model.Base Rig.Model.Packet Rig.Spec.Packet.
-Require Import Rig.Proofs.Packet Rig.Proofs.PacketCodec.
+Require Import Rig.Model.PacketObj Rig.Spec.PacketObj Rig.Proofs.Packet Rig.Proofs.PacketCodec Rig.Proofs.PacketObj.
 Import ListNotations.
 Open Scope Z_scope.
 
@@ -118,6 +118,93 @@ Proof. exact sdp_decode_spec. Qed.
 Theorem C15_sdp_decode_short_raises :
   forall bs, (length bs < 10)%nat -> sdp_of_bytes bs = OtherError.
 Proof. exact sdp_of_bytes_short. Qed.
+
+(* ---- 5. The other direction: a datagram (bytes, zero padding, flags 0x87 or 0x07) decoded with ANY n_args
+   re-encodes to exactly the datagram. *)
+Theorem C15_scp_reencode :
+  forall bs n q, bytes bs -> nth 0 bs 0 = 0 -> nth 1 bs 0 = 0 -> (nth 2 bs 0 = 135 \/ nth 2 bs 0 = 7) ->
+                 scp_of_bytes bs n = Ok q -> scp_bytes q = Ok bs.
+Proof. exact scp_reencode. Qed.
+
+Theorem C15_sdp_reencode :
+  forall bs p, bytes bs -> nth 0 bs 0 = 0 -> nth 1 bs 0 = 0 -> (nth 2 bs 0 = 135 \/ nth 2 bs 0 = 7) ->
+               sdp_of_bytes bs = Ok p -> sdp_bytes p = Ok bs.
+Proof. exact sdp_reencode. Qed.
+
+(* ---- 6. Packet OBJECTS (Model/PacketObj.v): field values are Python values -- None, ints, numpy integer
+   scalars of any width / signedness, reply_expected anything with a truth value.  The encoding of an object
+   depends on its class, the truth value of reply_expected, the INTEGER values of the fields and the payload
+   only (the proof reads the generated fact that the source coerces the port / core operands with int()). *)
+Theorem C15_object_bytes_depend_on_values_only :
+  forall o o', obj_view o = obj_view o' -> obj_bytes o = obj_bytes o'.
+Proof. exact obj_bytes_values_only. Qed.
+
+Theorem C15_numpy_scalar_is_its_integer :
+  forall o f b s z, obj_bytes (obj_set o f (PNp b s z)) = obj_bytes (obj_set o f (PInt z)).
+Proof. exact obj_bytes_numpy. Qed.
+
+Theorem C15_flag_is_its_truth_value :
+  forall o v v', truth v = truth v' -> obj_bytes (obj_set o LReply v) = obj_bytes (obj_set o LReply v').
+Proof. exact obj_bytes_truth. Qed.
+
+(* a required field still None: the encode raises; all present and in width: the documented layout *)
+Theorem C15_object_with_none_raises :
+  forall o, In PNone (if o_scp o then scp_required o else sdp_required o) -> obj_bytes o = OtherError.
+Proof. exact obj_bytes_none. Qed.
+
+Theorem C15_object_scp_layout :
+  forall o q, o_scp o = true -> obj_scp o = Some q -> scp_in_width q -> obj_bytes o = Ok (scp_wire q).
+Proof. exact obj_bytes_scp_ok. Qed.
+
+Theorem C15_object_sdp_layout :
+  forall o p, o_scp o = false -> obj_sdp o = Some p -> sdp_in_width p -> obj_bytes o = Ok (sdp_wire p).
+Proof. exact obj_bytes_sdp_ok. Qed.
+
+(* ---- 7. Histories on ONE object (encode / assign a field / change the bytearray payload in place / encode):
+   every encode of a history, whatever came before it -- earlier encodes, failed encodes, assignments -- is the
+   encoding of the values the object holds at that moment. *)
+Theorem C15_history_encode_is_of_current_values :
+  forall pre o post,
+    run_obj o (pre ++ OEnc :: post)
+    = run_obj o pre ++ obj_bytes (fold_left obj_apply pre o) :: run_obj (fold_left obj_apply pre o) post.
+Proof. exact run_obj_app_enc. Qed.
+
+Theorem C15_failed_encode_then_repair :
+  forall o f v q, o_scp o = true -> In PNone (scp_required o) ->
+    obj_scp (obj_set o f v) = Some q -> scp_in_width q ->
+    run_obj o [OEnc; OSet f v; OEnc; OEnc] = [OtherError; Ok (scp_wire q); Ok (scp_wire q)].
+Proof. exact run_obj_repair. Qed.
+
+(* ---- 8. Decoding copies: the object decoded from a caller's buffer is, after ANY later overwriting of that or
+   any other buffer, any later decodes and any edits of OTHER decoded objects, still the decoding of the bytes
+   the buffer held at that time; looked at again it shows those fields and encodes to exactly those bytes. *)
+Theorem C15_decoded_object_survives_buffer_reuse :
+  forall st is_scp bs n ops, untouched (length (objs st)) ops ->
+    nth (length (objs st)) (objs (fold_left dstep ops (dstep st (DDec is_scp bs n)))) None = decode is_scp bs n.
+Proof. exact decoded_object_stable. Qed.
+
+Theorem C15_recheck_after_buffer_reuse :
+  forall st is_scp bs n ops k,
+    datagram bs -> decode is_scp bs n = Some k -> untouched (length (objs st)) ops ->
+    dshow (fold_left dstep ops (dstep st (DDec is_scp bs n))) (DRecheck (length (objs st)))
+    = [ORechecked (Some k) (Some (Ok bs))].
+Proof. exact recheck_after_reuse. Qed.
+
+Example C15_object_history_instance :
+  run_obj ex_obj [OEnc; OSet LTag (PInt 255); OEnc; OPoke 1 9; OEnc]
+  = [OtherError;
+     Ok [0; 0; 135; 255; 177; 255; 4; 200; 0; 0; 3; 0; 255; 255; 7; 0; 0; 0; 1; 2];
+     Ok [0; 0; 135; 255; 177; 255; 4; 200; 0; 0; 3; 0; 255; 255; 7; 0; 0; 0; 1; 9]].
+Proof. exact ex_obj_history. Qed.
+
+Example C15_buffer_reuse_instance :
+  drun dstate0 [DDec true [0; 0; 7; 1; 2; 3; 4; 5; 6; 7; 8; 9; 10; 11; 12; 13] 3;
+                DOverwrite 0 [0; 0; 7; 9; 9; 9; 9; 9; 9; 9; 9; 9; 9; 9; 9; 9];
+                DRecheck 0]
+  = [ODecoded (decode true [0; 0; 7; 1; 2; 3; 4; 5; 6; 7; 8; 9; 10; 11; 12; 13] 3);
+     ORechecked (decode true [0; 0; 7; 1; 2; 3; 4; 5; 6; 7; 8; 9; 10; 11; 12; 13] 3)
+                (Some (Ok [0; 0; 7; 1; 2; 3; 4; 5; 6; 7; 8; 9; 10; 11; 12; 13]))].
+Proof. exact ex_buffer_reuse. Qed.
 
 (* ---- Non-vacuity: a packet with every port/core/cmd_rc/arg1 at the top of its width, two arguments and
    a payload satisfies the hypotheses, encodes to the bytes shown and decodes back to itself; a string whose
